@@ -1080,4 +1080,121 @@ Proof.
       destruct (nv_run x') as [ps' rest']. exact IH.
 Qed.
 
+(* ---- the record sequence of a well-formed preamble is a run ---- *)
+Lemma run_out fits s rs s2 o o' : run fits s rs s2 o -> o = o' -> run fits s rs s2 o'.
+Proof. intros H <-. exact H. Qed.
+
+Lemma idle_junk_step r : idle_junk_ok r -> rec_step norm Header r = RNext Header.
+Proof.
+  intros [_ H]. unfold rec_step. destruct (known_type (rt r)); cbn [negb]; [|reflexivity].
+  destruct (N.eqb_spec (rt r) RT_BeginRequest) as [E|E]; [|reflexivity].
+  destruct H as [Hne|[Hl Hkr]]; [contradiction|]. rewrite Hl. change (negb (8 =? 8)) with false. cbn iota.
+  rewrite begin_decode_cases. cbv zeta. rewrite Hkr. reflexivity.
+Qed.
+
+Lemma run_idle cap rs : Forall idle_junk_ok rs -> Forall (gv_fits cap) rs ->
+  run (rec_fits cap) Header rs Header (flat_map (reply_for maxc Idle) rs).
+Proof.
+  induction 1 as [|r t Hr _ IH]; intros Hg; [constructor|]. inversion Hg; subst.
+  cbn [flat_map]. econstructor; [reflexivity|exact (proj1 Hr)| |apply idle_junk_step; exact Hr|apply IH; assumption].
+  split; [assumption|]. intros i E; discriminate.
+Qed.
+
+Definition begin_rcd (id role flags : N) (pad : bytes) : rcd :=
+  mkRcd RT_BeginRequest id (begin_encode role flags) pad.
+
+Lemma begin_rcd_ok id role flags pad : id < 65536 -> flags < 256 -> len pad < 256 -> bytes_ok pad ->
+  rcd_ok (begin_rcd id role flags pad).
+Proof.
+  intros Hid Hf Hp Hb. unfold rcd_ok, begin_rcd. cbn [rt rid rbody rpad].
+  change (len (begin_encode role flags)) with 8. unfold RT_BeginRequest.
+  repeat split; try lia; try assumption.
+  unfold begin_encode, to_be16. cbn [app]. constructor; [unfold byte_ok; lia|].
+  constructor; [unfold byte_ok; lia|]. constructor; [exact Hf|]. apply bytes_ok_zeros.
+Qed.
+
+Lemma begin_role_known role flags : known_role role = true -> flags < 256 ->
+  known_role (be16 (nthN (begin_encode role flags) 0) (nthN (begin_encode role flags) 1)) = true.
+Proof.
+  intros Hk Hf. pose proof (begin_roundtrip role flags Hk Hf) as H. rewrite begin_decode_cases in H. cbv zeta in H.
+  revert H. destruct (known_role (be16 (nthN (begin_encode role flags) 0) (nthN (begin_encode role flags) 1)));
+    intros H; [reflexivity|discriminate H].
+Qed.
+
+Lemma run_begin cap id role flags pad :
+  0 < id < 65536 -> known_role role = true -> flags < 256 -> len pad < 256 -> bytes_ok pad ->
+  run (rec_fits cap) Header [begin_rcd id role flags pad]
+      (Params (mkInner (mkReq id role flags []) []) 0 0) [].
+Proof.
+  intros Hid Hk Hf Hp Hb.
+  apply (run_out _ _ _ _ (reply_for maxc Idle (begin_rcd id role flags pad) ++ [])).
+  - econstructor; [reflexivity|apply begin_rcd_ok; try assumption; lia| | |constructor].
+    + split; [intros E; discriminate E|intros i E; discriminate E].
+    + unfold rec_step, begin_rcd. cbn [rt rid rbody rpad].
+      change (known_type RT_BeginRequest) with true. rt_consts.
+      change (len (begin_encode role flags)) with 8. change (negb (8 =? 8)) with false. cbn iota.
+      rewrite begin_roundtrip by assumption. destruct (N.eqb_spec id 0); [lia|reflexivity].
+  - rewrite app_nil_r. unfold reply_for, begin_rcd. cbn [rt rid rbody rpad].
+    change (known_type RT_BeginRequest) with true. rt_consts.
+    rewrite begin_role_known by assumption. rewrite andb_false_r. reflexivity.
+Qed.
+
+Lemma params_junk_step i r : params_junk_ok (r_id (ireq i)) r ->
+  rec_step norm (Params i 0 0) r = RNext (Params i 0 0).
+Proof.
+  intros [_ H]. unfold rec_step. cbv beta iota. destruct (known_type (rt r)); cbn [negb]; [|reflexivity].
+  destruct (N.eqb_spec (rid r) (r_id (ireq i))) as [E|E]; [|rewrite !andb_false_r; reflexivity].
+  destruct (N.eqb_spec (rt r) RT_Params) as [E1|E1]; [exfalso; apply H; tauto|].
+  destruct (N.eqb_spec (rt r) RT_AbortRequest) as [E2|E2]; [exfalso; apply H; tauto|]. reflexivity.
+Qed.
+
+Lemma run_junk cap i rs : Forall (params_junk_ok (r_id (ireq i))) rs -> Forall (gv_fits cap) rs ->
+  run (rec_fits cap) (Params i 0 0) rs (Params i 0 0) (flat_map (reply_for maxc (InParams (r_id (ireq i)))) rs).
+Proof.
+  induction 1 as [|r t Hr _ IH]; intros Hg; [constructor|]. inversion Hg; subst.
+  cbn [flat_map]. econstructor; [reflexivity|exact (proj1 Hr)| |apply params_junk_step; exact Hr|apply IH; assumption].
+  split; [assumption|]. intros i' E Ht Hid. injection E as <-. exfalso. apply (proj2 Hr). tauto.
+Qed.
+
+Definition params_rcd (id : N) (body pad : bytes) : rcd := mkRcd RT_Params id body pad.
+
+Lemma params_rcd_reply id body pad : reply_for maxc (InParams id) (params_rcd id body pad) = [].
+Proof.
+  unfold reply_for, params_rcd. cbn [rt rid rbody rpad]. change (known_type RT_Params) with true. rt_consts.
+  reflexivity.
+Qed.
+
+Lemma run_piece_rcd cap i body pad :
+  0 < len body < 65536 -> len pad < 256 -> bytes_ok body -> bytes_ok pad -> r_id (ireq i) < 65536 ->
+  (forall k, len (snd (nv_run (ibuf i ++ take k body))) < cap) ->
+  run (rec_fits cap) (Params i 0 0) [params_rcd (r_id (ireq i)) body pad] (Params (params_next i body) 0 0) [].
+Proof.
+  intros Hb Hp Hbo Hpo Hid Hfit.
+  apply (run_out _ _ _ _ (reply_for maxc (InParams (r_id (ireq i))) (params_rcd (r_id (ireq i)) body pad) ++ [])).
+  - econstructor; [reflexivity| | | |constructor].
+    + unfold rcd_ok, params_rcd, RT_Params. cbn [rt rid rbody rpad]. repeat split; try lia; assumption.
+    + split; [intros E; discriminate E|]. intros i' E _ _. injection E as <-. exact Hfit.
+    + unfold rec_step, params_rcd. cbv beta iota. cbn [rt rid rbody rpad].
+      change (known_type RT_Params) with true. rt_consts. rewrite N.eqb_refl. cbn [andb].
+      destruct (N.eqb_spec (len body) 0); [lia|]. unfold params_next.
+      destruct (nv_run (ibuf i ++ body)) as [ps rest]. reflexivity.
+  - rewrite params_rcd_reply. reflexivity.
+Qed.
+
+Lemma run_end cap i pad : len pad < 256 -> bytes_ok pad -> r_id (ireq i) < 65536 ->
+  len (snd (nv_run (ibuf i))) < cap ->
+  run (rec_fits cap) (Params i 0 0) [params_rcd (r_id (ireq i)) [] pad] (Done (ireq i)) [].
+Proof.
+  intros Hp Hpo Hid Hfit.
+  apply (run_out _ _ _ _ (reply_for maxc (InParams (r_id (ireq i))) (params_rcd (r_id (ireq i)) [] pad) ++ [])).
+  - econstructor; [reflexivity| | | |constructor].
+    + unfold rcd_ok, params_rcd, RT_Params. cbn [rt rid rbody rpad]. rewrite len_nil.
+      repeat split; try lia; try assumption. constructor.
+    + split; [intros E; discriminate E|]. intros i' E _ _ k. injection E as <-.
+      cbn [params_rcd rbody]. rewrite take_nil, app_nil_r. exact Hfit.
+    + unfold rec_step, params_rcd. cbv beta iota. cbn [rt rid rbody rpad].
+      change (known_type RT_Params) with true. rt_consts. rewrite N.eqb_refl. reflexivity.
+  - rewrite params_rcd_reply. reflexivity.
+Qed.
+
 End Records.
